@@ -204,7 +204,10 @@ impl Gatekeeper {
     ) -> Result<u32, NotEnoughSlots> {
         // For updates, the difference between the existing appointment size and the update is computed.
         let mut registered_users = self.registered_users.lock().unwrap();
-        let user_info = registered_users.get_mut(&user_id).unwrap();
+        // The user may have been purged by a new block since the request was authenticated: a user that is gone has no slots.
+        let user_info = registered_users
+            .get_mut(&user_id)
+            .ok_or(NotEnoughSlots)?;
         let used_slots = self
             .dbm
             .lock()
